@@ -14,6 +14,17 @@ EDITS = [
     ('C18', 'src/rpm/headers/types.rs', [('let file_type = raw_mode & FILE_TYPE_BIT_MASK;\n        let permissions = raw_mode & PERMISSIONS_BIT_MASK;', 'let permissions = raw_mode & PERMISSIONS_BIT_MASK;\n        let file_type = raw_mode & FILE_TYPE_BIT_MASK;')]),
     ('C17', 'src/rpm/compressor.rs', [('level_in_range', 'level_ok_')]),
     ('C09', 'src/rpm/headers/header.rs', [('let store_size = store.len();', 'let store_len_ = store.len();'), ('store_size as u32', 'store_len_ as u32')]),
+    # units added later
+    ('C15', 'src/version.rs', [('let (nev, ra) = nevra', 'let (head, ra) = nevra'), ('match nev.rsplit_once', 'match head.rsplit_once'), ('None => (nev, ra, "")', 'None => (head, ra, "")')]),
+    ('C15', 'src/version.rs', [('let (epoch, vr) = evr.split_once', 'let (ep, vr) = evr.split_once'), ('        (epoch, version, release)\n    }\n}\n\nimpl<\'a> From', '        (ep, version, release)\n    }\n}\n\nimpl<\'a> From')]),
+    ('C19', 'src/rpm/filecaps.rs', [('let index = match part.find', 'let op_at = match part.find'), ('if index == 0 &&', 'if op_at == 0 &&'), ('&part[..index]', '&part[..op_at]'), ('&part[index..]', '&part[op_at..]')]),
+    ('C19', 'src/rpm/filecaps.rs', [('let mut last_ch = None;', 'let mut prev = None;'), ('match last_ch {', 'match prev {'), ('debug_assert!(last_ch.is_some())', 'debug_assert!(prev.is_some())'), ('last_ch = Some(ch);', 'prev = Some(ch);')]),
+    ('C06', 'src/rpm/builder.rs', [('let base_name = pb', 'let file_part = pb'), ('            base_name,\n', '            base_name: file_part,\n')]),
+    ('C17', 'src/rpm/builder.rs', [('let pb = PathBuf::from(dest.clone());', 'let pbuf = PathBuf::from(dest.clone());'), ('let parent = pb.parent()', 'let parent = pbuf.parent()'), ('let base_name = pb\n', 'let base_name = pbuf\n')]),
+    ('C11', 'src/rpm/builder.rs', [('for user in &users_to_create {\n            self.recommends.push(Dependency::user(user));', 'for owner in &users_to_create {\n            self.recommends.push(Dependency::user(owner));')]),
+    ('C10', 'src/rpm/package.rs', [('let new_key_ids: Vec<String>', 'let ids_of_this_sig: Vec<String>'), ('if new_key_ids.len() != 1', 'if ids_of_this_sig.len() != 1'), ('new_key_ids.len().try_into().unwrap()', 'ids_of_this_sig.len().try_into().unwrap()'), ('key_ids.extend(new_key_ids);', 'key_ids.extend(ids_of_this_sig);')]),
+    ('C05', 'src/rpm/headers/header.rs', [('IndexData::Int32(s) => s.first().copied(),', 'IndexData::Int32(values) => values.first().copied(),')]),
+    ('C06', 'src/rpm/builder.rs', [('            file_rdevs.push(0);\n            file_devices.push(1);', '            file_devices.push(1);\n            file_rdevs.push(0);')]),
 ]
 bad = 0
 for prop, rel, subs in EDITS:
